@@ -1626,8 +1626,8 @@ static void DecodeBit2(Word Code) {
             if (AdrMode != ModNone) {
                 goto common;
             }
-            break;
         }
+        break;
     common:
         if (OpSize > eSymbolSize8Bit) {
             WrError(ErrNum_InvOpSize);
